@@ -11,12 +11,25 @@ LEVEL = "model_checking"
 
 
 def conv(v):
-    """spec value (string) -> python value given to the real code"""
-    return int(v) if v.isdigit() else v
+    """spec value (string token) -> python value given to the real code: digits -> int, f:<x> -> float, anything else -> str"""
+    if v.isdigit():
+        return int(v)
+    if v.startswith("f:"):
+        return float(v[2:])
+    return v
 
 
 def unconv(v):
-    return str(v)
+    """python value observed in the real code -> token; the type is part of the token (the string "1" is not the integer 1)"""
+    if isinstance(v, bool):
+        return "b:%s" % v
+    if isinstance(v, (int, np.integer)):
+        return str(int(v))
+    if isinstance(v, (float, np.floating)):
+        return "f:%r" % float(v)
+    if isinstance(v, str):
+        return "s:" + v if (v.isdigit() or v.startswith("f:")) else v
+    return "o:%r" % (v,)
 
 
 # ----------------------------------------------------------------- batches
@@ -231,10 +244,21 @@ def grid_code_to_spec(ctx, hyruns, ncases):
         for i in range(nopt):
             key = "opt%d" % i
             nv = int(rng.integers(1, 6))
-            if rng.random() < 0.5:
+            kindv = rng.random()
+            if kindv < 0.4:
                 vs = [int(v) for v in rng.choice(np.arange(0, 40), size=nv, replace=False)]
-            else:
+            elif kindv < 0.75:
                 vs = [str(v) for v in rng.choice(words, size=nv, replace=False)]
+            elif kindv < 0.9:
+                # one option mixing integers and words (e.g. months and "all")
+                vs = [int(v) for v in rng.choice(np.arange(0, 40), size=nv, replace=False)]
+                vs[int(rng.integers(0, nv))] = str(rng.choice(words))
+                if nv > 2:
+                    vs[0] = str(rng.choice(words)) + "_x"
+            else:
+                # integers and a float
+                vs = [int(v) for v in rng.choice(np.arange(0, 40), size=nv, replace=False)]
+                vs[int(rng.integers(0, nv))] = float(rng.choice([0.5, 2.5, 7.25]))
             bare = nv == 1 and rng.random() < 0.6
             kw[key] = vs[0] if bare else vs
             opts.append({"k": key, "vs": [unconv(v) for v in vs], "bare": bool(bare)})
